@@ -34,20 +34,21 @@ Qed.
 (* the (M, B) pairs of the finite sub-domain *)
 Definition pairs : list (Z * Z) := [(2, 3); (-512, 511)].
 
+(* the exponents of the finite sub-domain *)
+Definition ks : list Z := [-8; -1; 0; 7].
+
 Definition sweep_gen (P : sensor -> N -> bool) : bool :=
   forallb (fun mb => forallb (fun k1 => forallb (fun k2 => forallb (fun fmt => forallb (fun raw =>
     P (mkSensor fmt 0 (fst mb) (snd mb) k1 k2) raw)
-    (nrange 256)) (nrange 3)) (zrange (-8) 16)) (zrange (-8) 16)) pairs.
+    (nrange 256)) (nrange 3)) ks) ks) pairs.
 
 (* generic in P: nothing is evaluated here *)
 Lemma sweep_gen_sound (P : sensor -> N -> bool) : sweep_gen P = true ->
   forall (m b k1 k2 : Z) (fmt raw : N),
-  In (m, b) pairs -> -8 <= k1 <= 7 -> -8 <= k2 <= 7 -> (fmt < 3)%N -> (raw < 256)%N ->
+  In (m, b) pairs -> In k1 ks -> In k2 ks -> (fmt < 3)%N -> (raw < 256)%N ->
   P (mkSensor fmt 0 m b k1 k2) raw = true.
 Proof.
-  intros H m b k1 k2 fmt raw Hp H1 H2 Hf Hr.
-  assert (I1 : In k1 (zrange (-8) 16)) by (apply zrange_in; cbn; lia).
-  assert (I2 : In k2 (zrange (-8) 16)) by (apply zrange_in; cbn; lia).
+  intros H m b k1 k2 fmt raw Hp I1 I2 Hf Hr.
   pose proof (nrange_in 3 _ Hf) as I3. pose proof (nrange_in 256 _ Hr) as I4.
   unfold sweep_gen in H.
   pose proof (proj1 (forallb_forall _ _) H _ Hp) as Ha. cbv beta in Ha.
